@@ -586,6 +586,7 @@ func clusterPhase(dir string) {
 		srcNode := nodeByID[sr.owner]
 		// cut offsets at the tar entry boundaries of this shard's backup stream
 		shardCuts := append([]int64(nil), cuts...)
+		boundary := map[int64]bool{0: true}
 		var tb bytes.Buffer
 		if err := srcNode.Srv.TSDBStore.BackupShard(sr.id, time.Time{}, &tb); err == nil {
 			tr := tar.NewReader(bytes.NewReader(tb.Bytes()))
@@ -601,6 +602,7 @@ func clusterPhase(dir string) {
 				pos := total - int64(remaining(tr, tb.Bytes()))
 				if pos > 0 && pos < total {
 					shardCuts = append(shardCuts, pos)
+					boundary[pos] = true
 					r.Count("cuts_at_tar_entry_boundaries", 1)
 				}
 			}
@@ -655,8 +657,10 @@ func clusterPhase(dir string) {
 			case added && (derr != nil || dstContent != srcContent):
 				wit["first_difference"] = firstDiff(srcContent, dstContent)
 				sig := "C18/copy/owner-added-but-content-differs"
-				if cut >= 0 {
-					sig += "/stream-cut"
+				if cut >= 0 && boundary[cut] {
+					sig += "/stream-cut" // at offset 0 or between two archive entries
+				} else if cut >= 0 {
+					sig += "/stream-cut-inside-an-entry"
 				}
 				r.Violation(sig, caseID, fmt.Sprintf("destination node %d is advertised as an owner of shard %d but answers reads differently from the source: %s", dest.ID, sr.id, firstDiff(srcContent, dstContent)), wit)
 			default:
@@ -666,6 +670,29 @@ func clusterPhase(dir string) {
 					r.Count("copies_failed_owner_list_unchanged", 1)
 				}
 				r.Nontrivial(fmt.Sprintf("copy|cutclass=%d|ok=%v", cutClass(cut), cerr == nil))
+			}
+			if cerr != nil && !added {
+				// the operator's reaction to a failed copy: ask again, network healthy
+				r.Eval(1)
+				rerr := c.MetaPostOnce("/copy-shard", url.Values{"src": {srcNode.TCPAddr}, "dest": {dest.TCPAddr}, "shard": {fmt.Sprint(sr.id)}})
+				c.WaitMetaCaughtUp(cluster.DefaultWait)
+				now = owners(sr.id)
+				added = len(now) == len(cur)+1
+				dstContent, derr = content(dest, sr)
+				wit["retry_error"] = fmt.Sprint(rerr)
+				wit["owners_after_retry"] = now
+				r.Count("copy_shard_retries_after_a_failed_copy", 1)
+				switch {
+				case rerr == nil && !added:
+					r.Violation("C18/copy/retry/success-but-owner-not-added", caseID+"/retry", "copy-shard repeated after a failed copy reported success but the destination is not listed as an owner", wit)
+				case rerr != nil && added:
+					r.Violation("C18/copy/retry/failure-but-owner-added", caseID+"/retry", "copy-shard repeated after a failed copy reported failure but the destination was added as an owner", wit)
+				case added && (derr != nil || dstContent != srcContent):
+					wit["first_difference"] = firstDiff(srcContent, dstContent)
+					r.Violation("C18/copy/retry/owner-added-but-content-differs", caseID+"/retry", fmt.Sprintf("copy-shard repeated (healthy network) after a copy that failed with the stream cut after %d bytes: destination node %d is advertised as an owner of shard %d but answers reads differently from the source: %s", cut, dest.ID, sr.id, firstDiff(srcContent, dstContent)), wit)
+				default:
+					r.Nontrivial(fmt.Sprintf("copy-retry|cutclass=%d|ok=%v", cutClass(cut), rerr == nil))
+				}
 			}
 			if added {
 				// take the replica away again so that the next cut starts from the same place
